@@ -601,6 +601,15 @@ class BaseIOStream:
         if self._read_future is not None:
             futures.append(self._read_future)
             self._read_future = None
+            if self._user_read_buffer:
+                # A read_into() is being failed: hand the caller's buffer
+                # back and keep the bytes read so far in our own buffer, as
+                # for any other unfinished read.
+                self._read_buffer = bytearray(
+                    memoryview(self._read_buffer)[: self._read_buffer_size]
+                )
+                self._after_user_read_buffer = None
+                self._user_read_buffer = False
         futures += [future for _, future in self._write_futures]
         self._write_futures.clear()
         if self._connect_future is not None:
